@@ -112,6 +112,15 @@ def showHistory (cache : Option Table) : List (List (Bytes × FVal)) → List St
 
 def handle (args : List String) : String :=
   match args with
+  | ["disp", awk, funcs, name] =>
+    let csv := fun (x : String) => if x == "-" then some [] else (x.splitOn ",").mapM fromHex
+    match csv awk, csv funcs, fromHex name with
+    | some a, some f, some n =>
+      match dispatch f f a n with
+      | .awk m => "awk " ++ toHex m
+      | .native m => "native " ++ toHex m
+      | .undefined => "undefined"
+    | _, _, _ => "bad-request"
   | "hist" :: rest =>
     match parseHistory rest with
     | some h => String.intercalate " " (showHistory none h)
